@@ -150,7 +150,14 @@ def score_work(m):
     return m.work + m.a
 
 
-SCORES = dict(sum=score_sum, big=score_big, neg=score_neg, tie=score_tie, work=score_work)
+def score_float(m):
+    # a noisy measurement of large magnitude: repetitions differ by quarters around 2**40 (exactly representable;
+    # the exact variance of such a sample is far below the rounding error of its squares)
+    import random as _r
+    return 2.0 ** 40 + m.a + 0.25 * _r.randrange(4)
+
+
+SCORES = dict(sum=score_sum, big=score_big, neg=score_neg, tie=score_tie, work=score_work, float=score_float)
 
 
 HANGS = 0
@@ -381,7 +388,14 @@ def _search(B, gridarg, decl, reps, mode, procs, sname, max_t=50):
             for n, v in c:
                 if not _same(r.get(n), v):
                     out.append(('C16', f'parameters of a result were modified: {r!r:.200}'))
-            if list(r.get('records', [])) != scores:
+            if sname == 'float':
+                # the score is noisy: judge the aggregate against the individual scores that were reported
+                rec = list(r.get('records', []))
+                if len(rec) != reps or any(x not in [2.0 ** 40 + d.get('a', 0) + 0.25 * k for k in range(4)] for x in rec):
+                    out.append(('C16', f'individual scores {rec}: expected {reps} values 2**40 + a + k/4'))
+                    continue
+                scores = rec
+            elif list(r.get('records', [])) != scores:
                 out.append(('C16', f'individual scores {r.get("records")} expected {scores}'))
             if mode in (0, 1):
                 agg = min(scores) if mode == 0 else max(scores)
@@ -481,6 +495,9 @@ def histories(seed, budget, prop='C14'):
             for mode in range(8):
                 for sname in ('sum', 'big', 'neg', 'tie', 'work'):
                     yield ('search', g, 2 if mode >= 6 else rng.choice([1, 2]), mode, 1, sname)
+        for mode in range(8):
+            for reps in (2, 3, 5):
+                yield ('search', {'a': [1, 2, 3]}, reps, mode, 1, 'float')
         for mode in (0, 1, 2):
             yield ('search_pl', {'a': [3, 1, 2], 'b': [0, 1]}, [('remove', 'b'), ('add', 'b', [4, 0]), ('remove', 'a')],
                    1, mode, 1, 'sum')
